@@ -67,7 +67,7 @@ LEVEL_TEXT = ("Exploration: thousands of generated surface calculations per run 
               "every as-written mass-action equation with its electrostatic term, and every charge-potential / layer-balance relation of "
               "every surface in every row is re-evaluated in Python. Not a proof: compositions, surfaces and options are sampled.")
 FLOORS = {"quick": 300, "thorough": 3000}
-SHARDS = {"quick": 4, "thorough": 4}      # DEVELOPMENT (shared machine): set back to 8/16
+SHARDS = {"quick": 8, "thorough": 16}
 BUDGET = {"quick": 500, "thorough": 3000, "replay": 1}
 
 DATABASES = [("phreeqc.dat", 3), ("wateq4f.dat", 2), ("minteq.v4.dat", 2)]
@@ -824,8 +824,8 @@ def check_row(case, M, v, dls, state, kth, stats, where):
             want, area = defined_sites_area(case, su, j, v, state)
             got = sum(sp.elements[site] * moles[sp.name] for sp in M.species[site])
             stats["bal"] += 1
-            if want > 1e-12:
-                stats["worst_sb"] = max(stats["worst_sb"], abs(got - want) / want)
+            if want > 0:
+                stats["worst_sb"] = max(stats["worst_sb"], max(0.0, abs(got - want) - 1e-14) / want)
             if abs(got - want) > TOL_REL * abs(want) + 1e-14:
                 raise Violation("site_balance", "%s: site type %s: sum over its %d surface species of stoichiometry*moles = %r, defined "
                                 "sites = %r (rel. diff %.3g)" % (where, site, len(M.species[site]), got, want,
